@@ -18,6 +18,8 @@ class RoundTrip(Oracle):
             "add_bundle": rng.choice([0, 1]), "update": rng.choice([0, 0, 1]),
             "add_record": rng.choice([0, 0, 1]), "unified": rng.choice([0, 0, 1]),
             "clock_jump": rng.choice([0, 1]), "restart_lite": rng.choice([0, 1]),
+            # exporters, comparisons and read-only accessors must be inert: interleave them
+            "export": rng.choice([0, 0, 1]), "peek": rng.choice([0, 0, 1]), "eq": rng.choice([0, 0, 1]),
         }
         return {
             "w": w,
